@@ -68,7 +68,7 @@ CHECKS = {
  'C16': dict(technique='cursor/remaining-length availability analysis of look-ahead reads (R-LEN-READ), constant evaluation of the character-class predicates over all 256 bytes (R-URI-CLASS), per-byte agreement of measuring and filling loops (R-SIZE-FILL), NULL-check typestate (R-ALLOC-NULL)',
              text='Decides that the URI scanners never read behind the length-delimited input (every cursor[k] read is covered by a proven lower bound of the '
                   'remaining length, decode_segment only after a tested check_segment), that the unescaped sets used by the path/query reconstruction exclude the '
-                  'separator and the escape character (necessary for injectivity of the lookup key), that the measuring and the filling pass of the reconstruction count and store the same number of bytes for every byte value, that a port number cannot leave its digit loop out of range without being rejected, that percent-escapes are recognised in both hex cases, and that optlist allocations are checked. Agreement with '
+                  'separator and the escape character (necessary for injectivity of the lookup key), that the measuring and the filling pass of the reconstruction count and store the same number of bytes for every byte value, that a port number cannot leave its digit loop out of range without being rejected, that percent-escapes are recognised in both hex cases, and that optlist allocations are checked. A `..` segment can only remove path segments this conversion added, never an option the chain held before. Agreement with '
                   'RFC 3986 on all strings and dot-segment resolution are not decided.',
              design='6 C16'),
  'C05': dict(technique='transfer/advance pairing typestate on progress counters (R-STREAM-ADV), declared-length cap and close must-pass-through rule (R-STREAM-CAP)',
